@@ -30,7 +30,8 @@ def gen(seed, tier):
         elif outcome == "truthy":
             last = ["return", rng.choice(TRUTHY_VALUES)]
         else:
-            last = ["raise", rng.choice(EXCEPTION_KINDS)]
+            # (StopIteration only for thread payloads: raised inside a coroutine, Python itself turns it into a RuntimeError)
+            last = ["raise", rng.choice(EXCEPTION_KINDS + (["StopIteration", "StopIteration"] if target == "threading" else []))]
         steps = ([["sleep", rng.choice([0.01, 0.1, 0.3])]] if rng.random() < 0.5 else []) + ([["spin", 2]] if rng.random() < 0.2 else []) + [last]
         pid = "x%d" % i
         payloads.append({"id": pid, "flavour": target, "via": "execute", "steps": steps, "args": rng.choice(ARGS), "kwargs": rng.choice(KWARGS)})
